@@ -25,7 +25,6 @@ XTOL_SLACK = 2e-7       # see judge_c06: residuals of size xtol*|y/s| are not ju
 NL_COV_REL = 1e-2       # scipy's covariance comes from MINPACK's forward-difference Jacobian:
 #                         largest difference seen in 280 000 fits 1.5e-3 (typical 1e-6..1e-4)
 NOISE_FREE_REL = 1e-6
-F32_SLACK = 2.0 ** 30   # binary32 rounding unit / binary64 rounding unit (2^29), one bit to spare
 
 
 PARTIAL = collections.Counter()     # clauses not judged on otherwise judged cases
@@ -440,11 +439,12 @@ def judge_c07(case, o, r):
 
     # fit_function(x): scalars, list, array -- and the same again after the history of the case
     # (a returned value switched to Monte Carlo, the result drawn on a plot, ...)
-    forms = ["fit", "fit_list", "fit_array"] + [k for k in ("fit_npscalar", "fit_typed",
-                                                            "fit_typedlist") if k in o]
+    extra = ("fit_npscalar", "fit_typed", "fit_typedlist", "fit_array_f32", "fit_array_i64",
+             "fit_array_i32")
+    forms = ["fit", "fit_list", "fit_array"] + [k for k in extra if k in o]
     if "fit@after" in o:
-        forms += ["fit@after", "fit_list@after", "fit_array@after", "fit_npscalar@after"] + [
-            k for k in ("fit_typed@after", "fit_typedlist@after") if k in o]
+        forms += ["fit@after", "fit_list@after", "fit_array@after"] + [
+            k + "@after" for k in extra if k + "@after" in o]
     hist = " after the history {}".format(case.get("hist")) if case.get("hist") else ""
     for form in forms:
         ok = True
@@ -458,8 +458,7 @@ def judge_c07(case, o, r):
             iv, ie = o[form][i]
             mv, me, mq = r["fit"][i]
             ty = types[i] if types else "float"
-            # a binary32 argument is processed by numpy in binary32 (fitgen.typed_point)
-            sl = 256.0 * (F32_SLACK if ty == "float32" else 1.0)
+            sl = 256.0
             ok = cmp("c07:fit-function-value:" + t + hsig,
                      "fit_function({!r}) [{}, argument of type {}] is not the model at the returned "
                      "parameters{}".format(x, form, ty, hist if hsig else ""), iv, mv,
@@ -468,8 +467,6 @@ def judge_c07(case, o, r):
                             "uncertainty of fit_function({!r}) [{}, argument of type {}] is not "
                             "sqrt(g^T Cov g){}".format(x, form, ty, hist if hsig else ""), ie, me,
                             "uncertainty band", x=x, slack=sl)
-            if ok and ty == "float32":
-                continue
             if ok:
                 q, qb = fb(mq)
                 if math.isfinite(q) and qb <= 1e-6 * abs(q) + 1e-12 * yunit * yunit and not close(
